@@ -527,6 +527,7 @@ func (s *Server) liveAOF(pos int64, conn net.Conn, rd *PipelineReader, msg *Mess
 			}
 		}
 		if err == io.EOF {
+			verifPoint(s, "liveaof.eof")
 			s.fcond.L.Lock()
 			s.fcond.Wait()
 			s.fcond.L.Unlock()
